@@ -43,6 +43,10 @@ var (
 	TokenKeywords = []string{"in", "and", "or", "not", "true", "false", "as", "export"}
 )
 
+// eofRune is returned by the lexer's next() at the end of the input. It is
+// not a valid rune, so it cannot be mistaken for a character of the input.
+const eofRune rune = -1
+
 type (
 	TokenType int
 	Token     struct {
@@ -168,7 +172,7 @@ func (l *lexer) emit(t TokenType) {
 func (l *lexer) next() rune {
 	if l.pos >= len(l.input) {
 		l.width = 0
-		return EOF
+		return eofRune
 	}
 	r, w := utf8.DecodeRuneInString(l.input[l.pos:])
 	l.width = w
@@ -265,7 +269,7 @@ func (l *lexer) run() {
 
 				for {
 					switch l.peek() {
-					case EOF:
+					case eofRune:
 						l.errorf("Single-line comment not closed.")
 						return
 					case '\n':
@@ -305,7 +309,7 @@ func (l *lexer) run() {
 			l.line++
 			l.col = 0
 		}
-		if l.next() == EOF {
+		if l.next() == eofRune {
 			break
 		}
 	}
@@ -422,7 +426,7 @@ func (l *lexer) stateString() lexerStateFn {
 			default:
 				return l.errorf("Unknown escape sequence: \\%c", l.peek())
 			}
-		case EOF:
+		case eofRune:
 			return l.errorf("Unexpected EOF, string not closed.")
 		case '\n':
 			return l.errorf("Newline in string is not allowed.")
